@@ -46,3 +46,34 @@ Example C02_map_example :
   mget (fold_left m_exec_remote ops m_init) k = Some (mkMentry None (mkTs 0 7 c2 0)).
 Proof. vm_compute. reflexivity. Qed.
 Print Assumptions C02_map_example.
+
+(* ---------- list elements ---------- *)
+From Orda.Model Require Import List.
+From Orda.Proofs Require Import TimeFacts ListElem.
+
+(* an update / delete addressed to an element acts on that node's (timestamp, value) as [eapply] and on nothing else *)
+Theorem C02_list_update_is_element_register : forall l tg v t x,
+  find_node l tg = Some x ->
+  l_update_remote_go l [tg] [v] t 0 = upd_node l tg (fun n => set_st n (eapply (node_st n) (EUpd (ts_at t 0) v))) \/
+  l_update_remote_go l [tg] [v] t 0 = l /\ eapply (node_st x) (EUpd (ts_at t 0) v) = node_st x.
+Proof. exact update_one_is_eapply. Qed.
+Print Assumptions C02_list_update_is_element_register.
+Theorem C02_list_delete_is_element_register : forall l sz tg t x,
+  find_node l tg = Some x ->
+  fst (l_delete_remote_go l sz [tg] t 0) = upd_node l tg (fun n => set_st n (eapply (node_st n) (EDel (ts_at t 0)))) \/
+  fst (l_delete_remote_go l sz [tg] t 0) = l /\ eapply (node_st x) (EDel (ts_at t 0)) = node_st x.
+Proof. exact delete_one_is_eapply. Qed.
+Print Assumptions C02_list_delete_is_element_register.
+
+(* whatever the order in which a replica receives the updates and deletes addressed to an element (operations of
+   distinct, un-wrapped timestamps), the element ends in the same state: the outcome is a function of the SET *)
+Theorem C02_list_element_order_independent : forall x l1 l2,
+  sbounded x -> Forall ebounded l1 -> NoDup (map eoid l1) -> ~ In (key_of (fst x)) (map eoid l1) ->
+  Permutation l1 l2 -> fold_left eapply l1 x = fold_left eapply l2 x.
+Proof. exact element_order_independent. Qed.
+Print Assumptions C02_list_element_order_independent.
+
+(* an element addressed by any delete is deleted, and a deleted element is never shown again *)
+Theorem C02_list_element_deleted_by_any_delete : forall l x t, In (EDel t) l -> elive (fold_left eapply l x) = false.
+Proof. exact element_deleted_by_any_delete. Qed.
+Print Assumptions C02_list_element_deleted_by_any_delete.
